@@ -570,6 +570,7 @@ func CoordinatorMain(o *Opts) int {
 			"outer_indices_done":            done,
 			"cap":                           capNote,
 			"outcomes_distinct":             len(merged.Outcomes),
+			"outcomes_listed":               outcomeList(merged.Outcomes, 60),
 			"subspaces":                     perSub,
 			"known_findings_hit":            knownHit,
 			"unlisted_finding_keys":         novelKeys,
@@ -660,6 +661,18 @@ func globRegexp(key string) *regexp.Regexp {
 		parts[i] = regexp.QuoteMeta(parts[i])
 	}
 	return regexp.MustCompile("^" + strings.Join(parts, `[^|]*`) + "$")
+}
+
+func outcomeList(m map[string]struct{}, max int) []string {
+	var out []string
+	for k := range m {
+		out = append(out, Short(k, 160))
+	}
+	sort.Strings(out)
+	if len(out) > max {
+		out = out[:max]
+	}
+	return out
 }
 
 func mustJSON(v any) string { b, _ := json.Marshal(v); return string(b) }
